@@ -207,11 +207,19 @@ def viol_class(c, impl, k, vs):
         if all(any('multi' in jobs[j] and j in una for j in pj.get(v[1], ())) for v in vs):
             return 'load-infeasible-after-repair-unassigns-multi-job'
     if kinds == ['VTime'] and not O.is_metric(c) and prev is not None:
-        pj = {r['v']: set(O.route_jobs(r)) for r in prev['routes']}
-        bad = [v[1] for v in vs]
-        cur = {r['v']: (set(O.route_jobs(r)), [(a['job'], a['sub']) for a in r['acts']]) for r in sts[k]['routes']}
-        prev_order = {r['v']: [(a['job'], a['sub']) for a in r['acts']] for r in prev['routes']}
-        if all(a in pj and cur[a][0] < pj[a] and cur[a][1] == [x for x in prev_order[a] if x[0] < 0 or x[0] in cur[a][0]] for a in bad):
+        # the removal alone (the before-tour restricted to the activities that stay in place) is already late:
+        # nothing re-checks a tour after tour.remove(job), and sub-tours of a feasible tour are feasible only on metric matrices
+        pr = {r['v']: r for r in prev['routes']}
+        cr = {r['v']: r for r in sts[k]['routes']}
+
+        def removal_breaks(a):
+            if a not in pr or a not in cr:
+                return False
+            B, A = pr[a]['acts'], cr[a]['acts']
+            pi, _ = lcs([act_key(x) for x in B], [act_key(x) for x in A])
+            kept = [B[i] for i in pi]
+            return len(kept) < len(B) and not O.sim_route(c, c['vehicles'][a], kept)[0]
+        if all(removal_breaks(v[1]) for v in vs):
             return 'time-infeasible-after-removal-nonmetric-matrix'
     return '%s-after-%s' % ('+'.join(kinds), op)
 
